@@ -9,8 +9,8 @@ open RaftWal.Crash
 
 /-- every result of a tail truncation with at most one failing I/O action -/
 theorem delTail_outcome (p : Proc) (hi : FInv p) (newMax : Nat) (hok : OkV (view p) (.delTail newMax))
-    (k : Option Nat) (wf : WriteFail) :
-    Outcome p (.delTail newMax) (runOp p (.delTail newMax) k wf) := by
+    (pl : Plan) :
+    Outcome p (.delTail newMax) (runOp p (.delTail newMax) pl) := by
   obtain ⟨d, fz⟩ := p
   cases fz with
   | some segs0 =>
@@ -34,57 +34,57 @@ theorem delTail_outcome (p : Proc) (hi : FInv p) (newMax : Nat) (hok : OkV (view
         have e2 : (clr f).synced = f.synced := rfl
         rw [e1, e2] at hnext
         omega
-      exact caseA h hk hD htb hmin hmx k wf
+      exact caseA h hk hD htb hmin hmx pl
     · subst hP
       rw [hmd] at hk hD
       have hmin : tk.min ≤ newMax :=
         hq.base.seg_min_le (show (K0 ++ tk :: D') ++ [t] = K0 ++ tk :: (D' ++ [t]) by simp) hok0.1 hok0.2.1 htb
-      exact caseB h hk hD htb hmin hdrop k wf
+      exact caseB h hk hD htb hmin hdrop pl
 
 /-- `finv_call_stmt` for `op = .delTail newMax` -/
 theorem finv_call_delTail (p : Proc) (hi : FInv p) (newMax : Nat) (hok : OkV (view p) (.delTail newMax))
-    (k : Option Nat) (wf : WriteFail) : FInv (runOp p (.delTail newMax) k wf).1 :=
-  (delTail_outcome p hi newMax hok k wf).inv
+    (pl : Plan) : FInv (runOp p (.delTail newMax) pl).1 :=
+  (delTail_outcome p hi newMax hok pl).inv
 
 /-- `call_view_stmt` for `op = .delTail newMax` -/
 theorem call_view_delTail (p : Proc) (hi : FInv p) (newMax : Nat) (hok : OkV (view p) (.delTail newMax))
-    (k : Option Nat) (wf : WriteFail) :
-    view (runOp p (.delTail newMax) k wf).1 =
-      if (runOp p (.delTail newMax) k wf).2 then specApply (view p) (.delTail newMax) else view p :=
-  (delTail_outcome p hi newMax hok k wf).vw
+    (pl : Plan) :
+    view (runOp p (.delTail newMax) pl).1 =
+      if (runOp p (.delTail newMax) pl).2 then specApply (view p) (.delTail newMax) else view p :=
+  (delTail_outcome p hi newMax hok pl).vw
 
 /-- `call_disklog_stmt` for `op = .delTail newMax` -/
 theorem call_disklog_delTail (p : Proc) (hi : FInv p) (newMax : Nat) (hok : OkV (view p) (.delTail newMax))
-    (k : Option Nat) (wf : WriteFail) :
-    absLog (runOp p (.delTail newMax) k wf).1.disk = view (runOp p (.delTail newMax) k wf).1 ∨
-    ((runOp p (.delTail newMax) k wf).2 = false ∧
-      absLog (runOp p (.delTail newMax) k wf).1.disk = specApply (view p) (.delTail newMax)) ∨
-    absLog (runOp p (.delTail newMax) k wf).1.disk =
-      (if (runOp p (.delTail newMax) k wf).2 then specApply (absLog p.disk) (.delTail newMax) else absLog p.disk) :=
-  (delTail_outcome p hi newMax hok k wf).dl
+    (pl : Plan) :
+    absLog (runOp p (.delTail newMax) pl).1.disk = view (runOp p (.delTail newMax) pl).1 ∨
+    ((runOp p (.delTail newMax) pl).2 = false ∧
+      absLog (runOp p (.delTail newMax) pl).1.disk = specApply (view p) (.delTail newMax)) ∨
+    absLog (runOp p (.delTail newMax) pl).1.disk =
+      (if (runOp p (.delTail newMax) pl).2 then specApply (absLog p.disk) (.delTail newMax) else absLog p.disk) :=
+  (delTail_outcome p hi newMax hok pl).dl
 
 /-- the other half of the new `finv_call_stmt` for `op = .delTail newMax`: the two further conjuncts -/
 theorem fextra_call_delTail (p : Proc) (hi : FInvS p) (newMax : Nat) (hok : OkV (view p) (.delTail newMax))
-    (k : Option Nat) (wf : WriteFail) : fextraB (runOp p (.delTail newMax) k wf).1 = true :=
-  (delTail_outcome p hi.1 newMax hok k wf).ex hi.2
+    (pl : Plan) : fextraB (runOp p (.delTail newMax) pl).1 = true :=
+  (delTail_outcome p hi.1 newMax hok pl).ex hi.2
 
 /-- `finv_call_stmt` (for `FInvS`) for `op = .delTail newMax` -/
 theorem finvS_call_delTail (p : Proc) (hi : FInvS p) (newMax : Nat) (hok : OkV (view p) (.delTail newMax))
-    (k : Option Nat) (wf : WriteFail) : FInvS (runOp p (.delTail newMax) k wf).1 :=
-  ⟨finv_call_delTail p hi.1 newMax hok k wf, fextra_call_delTail p hi newMax hok k wf⟩
+    (pl : Plan) : FInvS (runOp p (.delTail newMax) pl).1 :=
+  ⟨finv_call_delTail p hi.1 newMax hok pl, fextra_call_delTail p hi newMax hok pl⟩
 
 /-- the three statements follow for every call once they hold for the other three kinds of call -/
 theorem stmts_of_delTail
-    (hf : ∀ p, FInv p → ∀ op, (∀ n, op ≠ .delTail n) → OkV (view p) op → ∀ k wf, Outcome p op (runOp p op k wf)) :
+    (hf : ∀ p, FInv p → ∀ op, (∀ n, op ≠ .delTail n) → OkV (view p) op → ∀ pl, Outcome p op (runOp p op pl)) :
     finv_call_stmt ∧ call_view_stmt ∧ call_disklog_stmt := by
-  have hall : ∀ p, FInv p → ∀ op, OkV (view p) op → ∀ k wf, Outcome p op (runOp p op k wf) := by
-    intro p hi op hok k wf
+  have hall : ∀ p, FInv p → ∀ op, OkV (view p) op → ∀ pl, Outcome p op (runOp p op pl) := by
+    intro p hi op hok pl
     by_cases hd : ∃ n, op = .delTail n
     · obtain ⟨n, rfl⟩ := hd
-      exact delTail_outcome p hi n hok k wf
-    · exact hf p hi op (fun n e => hd ⟨n, e⟩) hok k wf
-  exact ⟨fun p hi op hok k wf => ⟨(hall p hi.1 op hok k wf).inv, (hall p hi.1 op hok k wf).ex hi.2⟩,
-    fun p hi op hok k wf => (hall p hi op hok k wf).vw, fun p hi op hok k wf => (hall p hi op hok k wf).dl⟩
+      exact delTail_outcome p hi n hok pl
+    · exact hf p hi op (fun n e => hd ⟨n, e⟩) hok pl
+  exact ⟨fun p hi op hok pl => ⟨(hall p hi.1 op hok pl).inv, (hall p hi.1 op hok pl).ex hi.2⟩,
+    fun p hi op hok pl => (hall p hi op hok pl).vw, fun p hi op hok pl => (hall p hi op hok pl).dl⟩
 
 #print axioms finv_call_delTail
 #print axioms call_view_delTail
